@@ -50,7 +50,7 @@ def main():
         p = routes.aldor(b, [lv, '-Mno-warnings', '-Jmain', '-Fjava', name + '.as'], d, timeout=120)
         return u, p
     tr = pmap(trans, units)
-    supported = []; unsupported = 0; n = 0; q9hang = 0
+    supported = []; unsupported = 0; n = 0; q9hang = 0; refused = 0
     for (i, lv, name), p in tr:
         sd = progs[i][0]
         blob = p.out + p.err
@@ -64,10 +64,14 @@ def main():
         if (p.timeout or p.sig == 9) and lv == '-Q9':
             # the optimiser not terminating at -Q9 is C02's recorded finding (hang:Q9-family); it is not a Java matter
             q9hang += 1; continue
+        if p.rc != 0 and re.search(rb'\[L\d+ C\d+\] #\d+ \((Fatal )?Error\)', blob) and b'Program fault' not in blob:
+            # refused by the front end (a C06 matter: the generator's programs are occasionally refused by type inference)
+            refused += 1; continue
         if p.rc != 0 or p.timeout or not os.path.exists(os.path.join(d, 'aldorcode', name + '.java')):
             ctx.violation('java-generation-failed', '%s %s: %s %s' % (sd, lv, p.cause, blob[-300:].decode(errors='replace')), {'x.as': progs[i][2]}); continue
         supported.append((i, lv, name))
-    ctx.log('%d units translated, %d unsupported, %d skipped (-Q9 optimiser does not terminate)' % (len(supported), unsupported, q9hang))
+    ctx.log('%d units translated, %d unsupported, %d skipped (-Q9 optimiser does not terminate), %d refused by the front end' % (len(supported), unsupported, q9hang, refused))
+    if refused * 20 > len(units): ctx.violation('too-many-valid-programs-rejected', '%d of %d units were refused by the compiler' % (refused, len(units)))
     # one javac per chunk
     chunks = [supported[k:k + 8] for k in range(0, len(supported), 8)]
     def jc(ch):
